@@ -10,7 +10,8 @@
            against the conclusions of the theorems (squared length, vanishing cross products,
            sign of the dot product) within 1e-12 relative. *)
 From Coq Require Import Qcanon.
-From DF Require Import Prelude FieldK NDArray Region Mesh Norm.
+From DF Require Import Prelude FieldK NDArray Region Mesh.
+From DF Require Export Norm.
 Open Scope Q_scope.
 
 Definition tolx : Q := 1 # 10000000000000.          (* 1e-13 *)
@@ -122,9 +123,9 @@ Definition check_hist p1 p2 n_ nvdim unit_ vals norm0 v0 ops (obs : option c15_o
       let blank := mkField (K:=QK) m nvdim unit_ (repeat true (ncells m)) [] in
       let init_ops := [@OUpdate QK a] ++ match ns with None => [] | Some s => [OSetNorm s] end
                       ++ [@OSetValid QK v0] in
-      let (d, _) := run_def blank (init_ops ++ mops) in
-      let r := do f <- mk_field (K:=QK) qc_nrm qc_is0 qc_close0 m nvdim unit_ a ns v0;
-               run_ops (K:=QK) qc_nrm qc_is0 qc_close0 f mops in
+      (* constructor = values, norm, validity on a blank object (theorem C15_constructor_order), then the
+         history; [d] records whether every length the model needed was an exact rational root *)
+      let (d, r) := (if (nvdim =? 0)%nat then (true, Err ValueE) else run_def blank (init_ops ++ mops)) in
       match r, obs with
       | Err _, None => d
       | OK f, Some o =>
